@@ -171,6 +171,11 @@ def child(binary, args, timeout):
         return p.returncode, so, se, True
 
 
+def _stable(msg):
+    """panic text without the numbers and addresses that differ from run to run"""
+    return re.sub(r"\s+", " ", re.sub(r"0x[0-9a-f]+|\d+", "N", msg))[:60].strip()
+
+
 def stress_args(i, seed, quick):
     s = seed * 100000 + i
     return {"seed": s, "mix": i % 4, "procs": [4, 2, 8, 1, 4, 8, 2, 4][i % 8], "ms": (260 if quick else 400) + (i % 5) * 60}
@@ -207,10 +212,10 @@ def analyse(a, rc, so, se, timed_out, need_result=True):
         ev.append(("C09:deadlock:timeout", "driver did not finish", se[-4000:]))
     pe = cc.parse_panic_exit(se)
     if pe and not fatal:
-        ev.append(("C09:panic:%s:%s" % (pe["msg"][:60], pe["func"]), "unrecovered panic: " + pe["msg"], pe["raw"]))
+        ev.append(("C09:panic:%s:%s" % (_stable(pe["msg"]), pe["func"]), "unrecovered panic: " + pe["msg"], pe["raw"]))
     if res:
         for p in res.get("panics") or []:
-            ev.append(("C09:panic:%s:%s" % (p["msg"][:60], p.get("top", "")), "panic in %s: %s" % (p["where"], p["msg"]), json.dumps(p)))
+            ev.append(("C09:panic:%s:%s" % (_stable(p["msg"]), p.get("top", "")), "panic in %s: %s" % (p["where"], p["msg"]), json.dumps(p)))
         for f in res.get("alive") or []:
             ev.append(("C09:alive:" + f, "goroutine still running after Close: " + f, f))
     elif need_result and not (fatal or dl or pe or timed_out):
@@ -325,7 +330,7 @@ def run(ctx):
                 continue
             for r in (r1, r2):
                 for p in r.get("panics") or []:
-                    note("C09:panic:%s:replay" % p["msg"][:60], "panic while replaying a schedule: " + p["msg"], json.dumps(p), {"mode": "replay", "schedule": s})
+                    note("C09:panic:%s:replay" % _stable(p["msg"]), "panic while replaying a schedule: " + p["msg"], json.dumps(p), {"mode": "replay", "schedule": s})
             for r in (r1, r2):
                 r["final"] = {"hosts": r["final"].get("hosts") or [], "macs": r["final"].get("macs") or []}
             if r1["diverged"] or r2["diverged"] or r1["final"] != s["final"] or r2["final"] != s["final"]:
@@ -453,7 +458,7 @@ def reproduce(ctx, binary, key, e):
             for f in r.get("c05") or []:
                 keys.add("C09:C05:" + f.split(":")[1])
             for p in r.get("panics") or []:
-                keys.add("C09:panic:%s:replay" % p["msg"][:60])
+                keys.add("C09:panic:%s:replay" % _stable(p["msg"]))
         if key in keys:
             return True
     if stress:
